@@ -100,7 +100,7 @@ def main():
             "guard": "cargo feature `verif` (off by default)",
             "enable": "harness/Cargo.toml depends on sodg by path with features = [\"verif\"]; cargo build --offline in /verif/harness rebuilds from /repo's working tree",
             "baseline_off_cmd": "cd /repo && (cargo nextest run --workspace --no-fail-fast --offline || cargo test --workspace --no-fail-fast --offline)",
-            "source_commits": ["d3e00782701f711743fff64a2a4246074d7d1f23"],
+            "source_commits": ["d3e00782701f711743fff64a2a4246074d7d1f23", "9ac87e7a6adaab2cb86df88b1c047f064b8b662e"],
             "add_only": True,
         },
         "engines": [{"name": "lean4+correspondence", "path": "/verif/check", "serves_properties": sorted(CHECKS),
